@@ -771,6 +771,7 @@ func (db *DB) doFollowLeaders(stream string, tables []*table, offsets []common.O
 			if newOffset.After(priorOffset) {
 				select {
 				case in <- &walRead{data, newOffset, source}:
+					vhook("fol.offer", tables[i], newOffset, source)
 					offsetsBySource := offsets[i]
 					offsetsBySource[source] = newOffset
 					offsetsMx.Unlock()
